@@ -195,6 +195,14 @@ def _json_default(o):
 def replay_file(path, profiles):
     doc = json.load(open(path))
     prof = profiles[doc["profile"]]
+    if doc.get("realgate"):
+        from .grid import real_gate
+        n, probs = real_gate(prof, doc["seed"])
+        r = {"error": None, "violation": None}
+        if probs:
+            r["violation"] = {"signature": "real_gate|" + probs[0][0], "msg": probs[0][2], "oracle": "real_gate",
+                              "site": "real_gate", "cls": probs[0][0], "step": None}
+        return doc, r
     if doc.get("realdisk"):
         from . import realdisk
         res = realdisk.one(prof, doc["seed"], doc.get("how", "flush"))
